@@ -34,6 +34,7 @@ Section Sem.
     | NBinary op a b => o_bin O op (getv vs a r) (getv vs b r)
     | NOracle k => oracle_sem k (ex r) (ey r) (ez r)
     | NRemap x y z t => getv vs t (upd_xyz r (getv vs x r) (getv vs y r) (getv vs z r))
+    | NOracleT x y z t => getv vs t (upd_xyz r (getv vs x r) (getv vs y r) (getv vs z r))
     | NApply v e t => getv vs t (upd_var r v (getv vs e r))
     | NInvalid => o_zero O
     end.
